@@ -479,6 +479,11 @@ class ProcessContinuation(Event):
         """Advance the generator to its next yield and schedule the continuation."""
         from happysimulator.core.sim_future import SimFuture
 
+        # Same rule as Event.invoke(): a crashed target executes nothing, so a
+        # process that was in flight when the target crashed does not advance.
+        if getattr(self.target, "_crashed", False):
+            return []
+
         tracing_on = _event_tracing_enabled
         if tracing_on:
             self.trace("process.resume.start")
